@@ -611,6 +611,24 @@ func (f *FuncCtx) nopanicCallee(fn *types.Func, short string, e *ast.CallExpr, e
 			return
 		}
 	}
+	if c == nil && fn.Type().(*types.Signature).TypeParams() == nil && fn.Type().(*types.Signature).RecvTypeParams() == nil {
+		// a helper without any contract (typically one just extracted from this function): verify it on its own
+		// body under an implicit contract `nopanic` + the caller's safety kinds, instead of refusing the call
+		key := funcKey(fn)
+		id := f.Pkg.PkgPath + "." + key
+		if f.E.implDone == nil {
+			f.E.implDone = map[string]bool{}
+		}
+		if !f.E.implDone[id] {
+			f.E.implDone[id] = true
+			ic := &FuncContract{Key: key, Props: f.C.Props, NoPanic: true, Safe: f.C.Safe, LoopInv: map[int][]Clause{}, LoopMod: map[int][]string{}, CallReq: map[string][]Clause{},
+				File: f.C.File, Line: f.C.Line, Unroll: map[int]int{}, After: map[string][]Clause{}, GhostCall: map[string][]Clause{}, RecvAssume: map[string][]Clause{},
+				Trusted: []string{"implicit no-panic contract (helper called from " + f.key + ")"}}
+			f.E.implicit = append(f.E.implicit, &implicitJob{f.Pkg, f.PC, ic})
+		}
+		f.note("helper without contract verified under an implicit no-panic contract: " + short)
+		return
+	}
 	f.safeOrd["nopanic.callee"]++
 	o := &Obligation{Name: fmt.Sprintf("%s/nopanic.callee.%s#%d", f.key, short, f.safeOrd["nopanic.callee"]), Kind: "nopanic.callee", Fn: f.key, Pkg: f.Pkg.PkgPath,
 		Text: "callee " + short + " must be under a nopanic (or recovers) contract, or small enough to be expanded in place", Src: posStr(f.Pkg.Fset, e.Pos()), Props: f.C.Props}
